@@ -1,7 +1,7 @@
 (* C02 - received frames are reassembled into exactly the messages that were sent.  Statements fixed in Spec/RxSpec.v. *)
 From Coq Require Import ZArith List Bool Lia.
 From N2kV Require Import Base.ListAux Model.CanId Model.Sched Model.PgnClass Model.NodeDefs Model.NodeRxDefs Spec.SendSpec Spec.RxSpec
-  Proofs.SendProofs Proofs.RxProofsA Proofs.RxProofsB Proofs.RxProofsC Proofs.RxProofsD Proofs.RxProofsE Proofs.RxProofsF Proofs.RxProofsG Proofs.RxProofsH.
+  Proofs.SendProofs Proofs.RxProofsA Proofs.RxProofsB Proofs.RxProofsC Proofs.RxProofsD Proofs.RxProofsE Proofs.RxProofsF Proofs.RxProofsG Proofs.RxProofsH Proofs.RxProofsI.
 Import ListNotations.
 Local Open Scope Z_scope.
 
@@ -163,6 +163,34 @@ Proof.
   - change (r_q wit_node) with wit_q. cbn. lia.
 Qed.
 Print Assumptions C02_rx_complete_applies.
+
+(* run-level completeness: over whole histories, frames spread over any number of polls, any clock, no 100 ms clause *)
+Theorem C02_rx_complete_run : rx_complete_run_stmt.  Proof. exact rx_complete_run. Qed.
+Print Assumptions C02_rx_complete_run.
+(* its hypotheses are satisfiable: sender 30's three frames spread over three polls, sender 31 interleaved, 150 ms pass in between *)
+Definition ex_hist : list rop :=
+  [RRx ex_a0; RRx ex_b0; RPoll; RBase (OTick 150); RRx ex_a1; RRx ex_b1; RPoll; RRx ex_a2; RPoll].
+Example C02_rx_complete_run_applies :
+  In (run_msg ex_a0 [ex_a1; ex_a2]) (fp_dlv (concat (snd (rrun gf_none ex_node ex_hist)))).
+Proof.
+  apply (C02_rx_complete_run gf_none ex_node ex_hist [] ex_a0 [ex_b0; ex_a1; ex_b1; ex_a2] [] [ex_a1; ex_a2] [(129029, 30, 255); (127489, 31, 255)]).
+  - intros r s; repeat split.
+  - split; [reflexivity|repeat constructor].
+  - intros k. do 10 (destruct k as [|k]; [vm_compute; reflexivity|]). vm_compute. reflexivity.
+  - vm_compute. discriminate.
+  - intros f Hin. cbn in Hin. repeat (destruct Hin as [<-|Hin]; [vm_compute; auto|]). destruct Hin.
+  - reflexivity.
+  - repeat split; vm_compute; reflexivity.
+  - cbn [interleaved]. right. split; [intros (_ & A & _); vm_compute in A; discriminate|]. left. eexists. split; [reflexivity|].
+    cbn [interleaved]. right. split; [intros (_ & A & _); vm_compute in A; discriminate|]. left. eexists. split; [reflexivity|]. reflexivity.
+  - cbn [seq_ok]. repeat split; vm_compute; congruence.
+  - vm_compute. reflexivity.
+  - intros cs' Hl E. cbn [length] in Hl. destruct cs' as [|x [|y [|z cs']]]; cbn [length] in Hl; try lia.
+    + vm_compute. reflexivity.
+    + cbn [length firstn] in E. injection E as ->. vm_compute. reflexivity.
+  - vm_compute. lia.
+Qed.
+Print Assumptions C02_rx_complete_run_applies.
 
 (* the library's group function handlers (Model/GroupFnDefs.v, property C09) satisfy the contract gf_ok: HandleGroupFunction leaves the
    reassembly table, the driver queue, the PGN configuration, the known-message switch and the clock alone and delivers nothing itself,
